@@ -15,6 +15,8 @@ pub enum Family {
     Idle,
     /// timeouts against free / full / closed mailboxes
     Timeouts,
+    /// like mixed, with permits handed out before anybody waits: hooks that run to their end without suspending
+    Eager,
     /// the shutdown window: a backlog, then stop() (also on a full mailbox), then traffic, kill, drops
     /// and ticks while the marker travels and while on_stop is suspended
     Shutdown,
@@ -28,6 +30,7 @@ pub fn family_of(name: &str) -> Option<Family> {
         "idle" => Family::Idle,
         "timeouts" => Family::Timeouts,
         "shutdown" => Family::Shutdown,
+        "eager" => Family::Eager,
         _ => return None,
     })
 }
@@ -54,7 +57,7 @@ impl Gen {
     fn spawn_line(&mut self) -> String {
         let r = &mut self.rng;
         let cap = match self.family {
-            Family::Burst | Family::Timeouts | Family::Shutdown => *r.pick(&[1usize, 1, 2, 2, 3]),
+            Family::Burst | Family::Timeouts | Family::Shutdown | Family::Eager => *r.pick(&[1usize, 1, 2, 2, 3]),
             _ => *r.pick(CAPS),
         };
         let so = |r: &mut Rng, okw: u64| match r.weighted(&[okw, 1, 1]) {
@@ -65,7 +68,7 @@ impl Gen {
         let start = so(r, if self.family == Family::Mixed { 10 } else { 40 });
         let stop = so(r, 8);
         let nrun = match self.family {
-            Family::Idle => 1 + r.below(5),
+            Family::Idle | Family::Eager => 1 + r.below(5),
             _ => r.below(3),
         };
         let mut run = vec![];
@@ -239,6 +242,16 @@ impl Gen {
                 2 => "tick".to_string(),
                 3 => format!("stop {}", self.pick_handle(w, true)),
                 _ => format!("kill {}", self.pick_handle(w, true)),
+            },
+            Family::Eager => match self.rng.weighted(&[6, 14, 3, 1, 1, 8, 1, 1]) {
+                0 => "gate".to_string(),
+                1 => self.send_line(w),
+                2 => "tick".to_string(),
+                3 => format!("stop {}", self.pick_handle(w, true)),
+                4 => format!("kill {}", self.pick_handle(w, true)),
+                5 => "pregate".to_string(),
+                6 => format!("drop {}", self.pick_handle(w, true)),
+                _ => format!("clone {}", self.pick_handle(w, true)),
             },
             Family::Mixed => match self.rng.weighted(&[12, 14, 3, 1, 1, 2, 2, 1, 1, 2]) {
                 0 => "gate".to_string(),
